@@ -198,17 +198,23 @@ prop(
 
 prop(
     "C13",
-    ["LolHtml.Thm.C13_Encoding"],
+    ["LolHtml.Thm.C13_Encoding", "LolHtml.Thm.C13_Tables", "LolHtml.Thm.C13_Whatwg"],
     [{"lane": "enc", "n_quick": 3000, "n_thorough": 21000}],
-    "lane enc: decoder feeds with arbitrary splits (all 36 encodings on the implementation side; UTF-8, windows-1252, ISO-8859-7 on the model side), text > 1 KiB, malformed bytes, encoder, UTF-8 resync, meta charset positions, non-ASCII-compatible refusal",
-    ["encoding_rs is assumed to satisfy the codec laws (checked by the lane against whole-buffer decode/encode, not proved)",
+    "lane enc: decoder feeds with arbitrary splits — all 36 encodings on BOTH sides (UTF-8, x-user-defined and the 28 single-byte encodings from tables regenerated out of the pinned encoding_rs source; the 6 legacy multi-byte encodings as WHATWG state machines over index facts carried by the case, obtained from the real encoding_rs through harness sub-lane decq), text > 1 KiB, malformed bytes, encoder, UTF-8 resync, meta charset positions (labels resolved through the generated label table), non-ASCII-compatible refusal",
+    ["single-byte / x-user-defined / UTF-8: the codec laws are theorems about the pinned crate's own tables (C13_Tables); assumed: encoding_rs' coder is that table lookup (lane-checked chunk by chunk)",
+     "legacy multi-byte: the streaming laws are theorems for every index (C13_Whatwg); assumed: encoding_rs implements the WHATWG machine over the WHATWG index data (machines lane-checked against it with its own index facts; index data and multi-byte encoders only oracle-checked)",
+     "known finding F16 (encoding_rs drops a pending lead byte on an empty feed; reachable through the hook only) shows as a model/implementation disagreement of exactly that shape, excluded from the diff by gen/enc.py project and tagged by the oracle",
      "decoder buffer >= 4, encoder buffers >= 14 (real: 1024 / 63 / 4096)", PKG_SCOPE],
     level_text=("Lean 4 theorems for every lawful codec, buffer size and split: concatenated handler text = whole decode, exactly "
                 "one last_in_text_node chunk, chunk source ranges contiguous and covering the node (C13_decoder, C13_ranges); fast path = slow path "
                 "(C13_fastpath); encoder output = per-scalar encoding or NCR, independent of buffer sizes (C13_encoder); UTF-8 "
                 "resync safety (C13_resync_safe/rejects, liveness partial); meta charset: at most one change, effective after "
-                "the tag, sink notified first (C13_meta); three codec instances proved lawful. PARTIAL: encoding_rs itself."),
-    level_note="Trusted: Lean kernel; model of text_decoder.rs / text_encoder.rs / flush_encoding_change tied by lane enc (hook VerifTextDecoder).",
+                "the tag, sink notified first (C13_meta). The laws are PROVED for UTF-8, x-user-defined and all 28 single-byte "
+                "encodings from the crate's own tables (decidable TableOk per table => Lawful, StructSafe, encode = inverse of decode, "
+                "unmapped -> NCR: C13_tables) and for the WHATWG decoders of EUC-KR, Big5, Shift_JIS, EUC-JP, gb18030/GBK for every "
+                "index (C13_Whatwg: *_lawful, pending <= 3 bytes, C13_whatwg_streaming). PARTIAL only in: encoding_rs = these tables / "
+                "machines (lane), multi-byte index data and encoders (oracle)."),
+    level_note="Trusted: Lean kernel; translator enc2lean (tables, labels, is_ascii_compatible of the pinned encoding_rs; cross-checks lol-html's two encoding lists against it); model of text_decoder.rs / text_encoder.rs / flush_encoding_change tied by lane enc (hook VerifTextDecoder); the transcription of the WHATWG Encoding Standard decoders (Model/Whatwg.lean).",
     technique="Lean 4 proof (abstract codec laws + induction over feeds) + correspondence lane + whole-buffer encoding_rs oracle",
     design_ref="DESIGN.md section 4 C13",
 )
